@@ -227,15 +227,22 @@ def macro_retry():
     vs, n = [], 0
     specs = {"amp": ("Amplifier", "volume", 0, 1024), "gen": ("Generator", "panning", -128, 128), "flt": ("Filter", "freq", 0, 14000)}
     for first, second in itertools.product((("amp", "gen"), ("amp",), ("gen", "flt"), ("amp", "gen", "flt")), repeat=2):
-        for bad in (40000, -1):
+        for bad in (40000, -1, "dup", "17"):
             n += 1
             case = {"macro_retry": [list(first), list(second), bad]}
             key = {"refused_for": "same" if first == second else "overlapping" if set(first) & set(second) else "other"}
             p = rv.Project()
             mods = {k: p.new_module(getattr(rv.m, specs[k][0])) for k in specs}
             try:
-                rv.m.MultiCtl.macro(p, *[(mods[k], specs[k][1]) for k in first], initial=bad)
-                continue            # the tree accepts the value: nothing was refused, nothing to retry
+                if bad == "dup":
+                    # refused because two pairs name the same module -- AFTER the pairs in front of them were looked at
+                    rv.m.MultiCtl.macro(p, *([(mods[k], specs[k][1]) for k in first] + [(mods[first[0]], specs[first[0]][1])]))
+                elif bad == "17":
+                    extra = [p.new_module(rv.m.Amplifier) for _ in range(17)]
+                    rv.m.MultiCtl.macro(p, *([(mods[k], specs[k][1]) for k in first] + [(x, "volume") for x in extra]))
+                else:
+                    rv.m.MultiCtl.macro(p, *[(mods[k], specs[k][1]) for k in first], initial=bad)
+                continue            # the tree accepts the request: nothing was refused, nothing to retry
             except Exception:
                 pass
             try:
